@@ -233,7 +233,10 @@ OnFetch(m, e, i) ==
       m1 == Check(m, TRUE, e.contains = issued /\ e.ok = issued /\ e.fetch_panics = ~issued, "C14", "r1", i, e.h)
       \* C14 r2: fetch returns a pointer to the very object that was stashed
       m2 == Check(m1, issued /\ e.ok, e.o = m.hs[e.h].obj, "C14", "r2", i, e.h)
-  IN m2
+      \* C20 r3: a handle issued by a set of ANOTHER arena (which it may have outlived) is never accepted
+      foreign == e.h \in DOMAIN m.hs /\ m.hs[e.h].set \in DOMAIN m.owner /\ m.owner[m.hs[e.h].set] # ArenaOf(e)
+      m3 == Check(m2, foreign, ~e.contains /\ ~e.ok, "C20", "r3", i, e.h)
+  IN m3
 
 \* observations common to cb_begin / cb_end / call_begin / call_end / drop_begin
 ObserveState(m, e, i, outsideCb) ==
